@@ -4,8 +4,9 @@
 # usage: selftest/benign.sh [name ...]
 set -u
 cd "$(dirname "$0")/.."
-# under `vp run --with-repo` the job works on its private copy of the repository (VP_RUN_REPO), never on the live /repo
-REPO="${VP_RUN_REPO:-/repo}"
+# never on the live /repo: the job's private snapshot under `vp run --with-repo`, a private clone otherwise
+. selftest/_private_repo.sh
+REPO="$VP_RUN_REPO"
 if [ -n "${VP_RUN_REPO:-}" ]; then sed -i "s#path = \"/repo\"#path = \"$VP_RUN_REPO\"#" sim/Cargo.toml; fi
 [ $# -gt 0 ] && LIST="$*" || LIST=$(ls selftest/benign 2>/dev/null)
 if [ -n "$(git -C "$REPO" status --porcelain)" ]; then echo "repo working tree not clean" >&2; exit 2; fi
